@@ -416,6 +416,67 @@ fn collect_leaf_paths(v: &Value, path: String, out: &mut Vec<String>) {
 pub fn c11(tier: Tier) -> ! {
     let mut run = Run::new("C11", tier, "exploration");
     let doubles = special_doubles(tier);
+    // (0) states with two occupied sites built through the public Rust API (no assumption about
+    // the layout of the document), edited through their basis handles, then round-tripped
+    {
+        use packing::wallpaper::{get_wallpaper_group, Wallpaper, WyckoffSite};
+        use packing::{LJShape2, LineShape, PackedState, PotentialState};
+        let mut multi: Vec<(String, AnyState)> = vec![];
+        for g in ["p2", "p2mg", "p1"].iter() {
+            let wg = get_wallpaper_group(wallpaper_enum(g)).unwrap();
+            let site = WyckoffSite::new(&wg).unwrap();
+            let ident = WyckoffSite::new(&get_wallpaper_group(wallpaper_enum("p1")).unwrap()).unwrap();
+            for second in [site.clone(), ident.clone()].iter() {
+                let hard = PackedState::initialise(LineShape::polygon(4).unwrap(), Wallpaper::new(&wg), &[site.clone(), second.clone()]);
+                let lj = PotentialState::initialise(LJShape2::from_trimer(0.637556, 120., 1.), Wallpaper::new(&wg), &[site.clone(), second.clone()]);
+                for st in vec![AnyState::Poly(hard), AnyState::Lj(lj)] {
+                    // spread the two sites apart and give every parameter its own value
+                    let nb = st.basis_values().len();
+                    let vals = [0.3125, -0.1875, 1.25, -0.4375, 0.0625, 2.75];
+                    for k in 0..6.min(nb) {
+                        st.set_basis_value(nb - 1 - k, vals[k]);
+                    }
+                    multi.push((format!("{} two sites ({} + {} copies)", g, site.multiplicity(), second.multiplicity()), st));
+                }
+            }
+        }
+        let mut n_multi = 0u64;
+        for (label, st) in multi.iter() {
+            n_multi += 1;
+            let case = json!({"engine": "document", "label": label, "state": st.to_json()});
+            let text = st.to_string();
+            let parsed: Result<Value, _> = serde_json::from_str(&text);
+            let back = parsed.ok().and_then(|v| AnyState::from_json_as(st, &v).ok());
+            match back {
+                None => run.fail(None, &format!("{}: the written document does not read back", label), case),
+                Some(b) => {
+                    let same_n = b.total_shapes() == st.total_shapes() && b.relative().len() == st.relative().len();
+                    let score_close = match (st.score(), b.score()) {
+                        (Some(x), Some(y)) => (x - y).abs() <= 1e-9 * x.abs().max(y.abs()).max(1e-300),
+                        (None, None) => true,
+                        _ => false,
+                    };
+                    let placed_close = same_n && st.cartesian().iter().zip(b.cartesian().iter()).all(|(p, q)| (0..2).all(|i| (p.t[i] - q.t[i]).abs() <= 1e-9 * (1. + p.t[i].abs()) && (0..2).all(|j| (p.m[i][j] - q.m[i][j]).abs() <= 1e-12)));
+                    if !same_n || !score_close || !placed_close {
+                        run.fail(None, &format!("{}: {} copies, score {:?} before; {} copies, score {:?} after the round trip (or the copies moved)", label, st.total_shapes(), st.score(), b.total_shapes(), b.score()), case);
+                    }
+                }
+            }
+        }
+        run.set("api_built_two_site_structures", n_multi);
+        // the rest of this check builds documents in the layout the crate writes today
+        let probe = state_json("p2", &ShapeSpec::Polygon(4).json(), &Params { length: 9., ratio: 0.8, angle: 1.3, x: 0.1, y: 0.2, phi: 0.3 });
+        if AnyState::from_json(&probe).is_err() {
+            if run.violations() > 0 {
+                run.set("evaluations", n_multi);
+                run.set("distinct_nontrivial", n_multi);
+                run.set("rule", "only the API-built structures were checked: the crate no longer reads documents in the layout this harness writes");
+                run.sample(json!({"api_built": multi[0].0}));
+                run.finish();
+            }
+            machinery_error("the crate no longer reads state documents in the layout this harness writes");
+        }
+    }
     // (i) every special double in every parameter slot where it is admissible
     let combos: Vec<(&str, ShapeSpec)> = vec![("p2", ShapeSpec::Polygon(4)), ("p2mg", ShapeSpec::Trimer(0.637556, 120., 1.)), ("p1", ShapeSpec::LjTrimer(0.637556, 120., 1.)), ("p2gg", ShapeSpec::LjCircle)];
     let mut jobs = vec![];
